@@ -76,6 +76,7 @@ func BaseGraph(variant int) *Graph {
 		n.F["f"] = float64(k) + 0.5
 		n.F["mi"] = k * 10
 		n.F["title"] = "t" + tag
+		n.F["nick"] = "k" + tag
 		n.F["dual"] = "d" + tag
 		n.F["strs"] = L_("x"+tag, "y"+tag)
 		n.F["ints"] = L_(k, k+1, k+2)
